@@ -83,15 +83,44 @@ class Fn:
         self.ret = None if rt == "void" else rt
         self.mems = sorted(set(cfg.node_fields.values()))
         self.tmp = 0
+        self.locals = []        # mutable locals declared so far (in order)
+        self.prelude = []       # auxiliary definitions (loops) emitted before the function
+        self.nloops = 0
+        self.cbs = []           # function-pointer parameters (callbacks with no result)
+        for p in self.params:
+            if "(*" in p["type"]["qualType"] or "_func_t" in p["type"]["qualType"]:
+                self.cbs.append(p["name"])
+        self.vals = [v for v in self.vals if v not in self.cbs]
+        self.has_loop = self.contains_loop(self.body)
+
+    def contains_loop(self, n):
+        if not isinstance(n, dict):
+            return False
+        if n.get("kind") in ("WhileStmt", "ForStmt"):
+            return True
+        if n.get("kind") == "DoStmt":
+            # `do { … } while (0)` (macro idiom) is not a loop
+            return any(self.contains_loop(c) for c in n.get("inner", [])[:1])
+        return any(self.contains_loop(c) for c in n.get("inner", []))
 
     # ---- state tuple
+    def scope_vars(self):
+        return self.mems + [lname(h) for h in self.hdrs] + [lname(v) for v in self.locals]
+
+    def scope_types(self):
+        return ["Mem"] * len(self.mems) + ["Hd"] * len(self.hdrs) + ["Nat"] * len(self.locals)
+
     def state(self):
-        return "(" + ", ".join(self.mems + [lname(h) for h in self.hdrs]) + ")" if len(self.mems) + len(self.hdrs) > 1 \
-            else (self.mems + self.hdrs)[0]
+        vs = self.scope_vars()
+        return "(" + ", ".join(vs) + ")" if len(vs) > 1 else vs[0]
+
+    def cb_type(self):
+        return " → ".join(["Mem"] * len(self.mems) + ["Nat"]) + " → " + " × ".join(["Mem"] * len(self.mems))
 
     def result(self, retv):
         st = ", ".join(self.mems + [lname(h) for h in self.hdrs])
-        return "(%s, %s)" % (st, retv) if self.ret is not None else ("(%s)" % st if "," in st else st)
+        r = "(%s, %s)" % (st, retv) if self.ret is not None else ("(%s)" % st if "," in st else st)
+        return "some %s" % r if self.has_loop else r
 
     # ---- expressions
     def strip(self, e):
@@ -212,6 +241,8 @@ class Fn:
         if fn not in self.known:
             raise Unsupported("call to untranslated function %s" % fn)
         g = self.known[fn]
+        if g.has_loop or g.cbs:
+            raise Unsupported("call to a function with a loop or a callback: %s" % fn)
         hargs = []
         vargs = []
         for p, a in zip(g.params, args):
@@ -239,8 +270,15 @@ class Fn:
                 continue
             if k == "DeclStmt":
                 for v in s["inner"]:
-                    if v["kind"] != "VarDecl" or "inner" not in v:
-                        raise Unsupported("declaration without initialiser")
+                    if v["kind"] != "VarDecl":
+                        raise Unsupported("declaration")
+                    if "struct" in v["type"]["qualType"] and "*" not in v["type"]["qualType"]:
+                        continue        # scratch structure for cstl_swap: no model state
+                    if v["name"] not in self.locals:
+                        self.locals.append(v["name"])
+                    if "inner" not in v:
+                        out.append(pad + "let %s := 0" % lname(v["name"]))   # uninitialised
+                        continue
                     init = self.strip(v["inner"][0])
                     if init["kind"] == "CallExpr" and self.strip(init["inner"][0])["referencedDecl"]["name"] in self.known:
                         lines, rv = self.call_stmt(init, True)
@@ -249,9 +287,70 @@ class Fn:
                     else:
                         out.append(pad + "let %s := %s" % (lname(v["name"]), self.expr(v["inner"][0])))
                 continue
+            if k == "BinaryOperator" and s["opcode"] == ",":
+                out += self.stmts([s["inner"][0], s["inner"][1]], ind, tail=False)
+                continue
             if k == "BinaryOperator" and s["opcode"] == "=":
+                lhs = self.strip(s["inner"][0])
+                if lhs["kind"] == "DeclRefExpr" and lhs["referencedDecl"]["name"] in self.locals:
+                    out.append(pad + "let %s := %s" % (lname(lhs["referencedDecl"]["name"]), self.expr(s["inner"][1])))
+                    continue
+                rhs = self.strip(s["inner"][1])
+                if rhs["kind"] == "BinaryOperator" and rhs["opcode"] == "=":
+                    # chained assignment a = b = v: the right assignment first, then a = v
+                    out += self.stmts([rhs], ind, tail=False)
+                    out.append(pad + self.assign(s["inner"][0], self.expr(rhs["inner"][1])))
+                    continue
                 out.append(pad + self.assign(s["inner"][0], self.expr(s["inner"][1])))
                 continue
+            if k == "DoStmt":
+                cond = self.strip(s["inner"][1])
+                if cond["kind"] == "IntegerLiteral" and cond["value"] == "0":
+                    body = s["inner"][0]
+                    out += self.stmts(body["inner"] if body["kind"] == "CompoundStmt" else [body], ind, tail=False)
+                    continue
+                raise Unsupported("do-while loop")
+            if k in ("WhileStmt", "ForStmt"):
+                if k == "ForStmt":
+                    init, _, cond, incr, body = s["inner"]
+                    if init and init.get("kind"):
+                        out += self.stmts([init], ind, tail=False)
+                else:
+                    cond, body = s["inner"][0], s["inner"][1]
+                    incr = None
+                self.nloops += 1
+                lname_ = "%s_loop%d" % (self.lean_name(), self.nloops)
+                vs = self.scope_vars()
+                tys = self.scope_types()
+                consts = [lname(v) for v in self.vals]
+                cbs = [lname(c) for c in self.cbs]
+                nlocals = len(self.locals)
+                condtxt = self.expr(cond)
+                blines = self.stmts(body["inner"] if body["kind"] == "CompoundStmt" else [body], 3, tail=False)
+                if incr and incr.get("kind"):
+                    blines += self.stmts([incr], 3, tail=False)
+                # locals declared inside the body do not survive an iteration
+                self.locals = self.locals[:nlocals]
+                tup = "(" + ", ".join(vs) + ")" if len(vs) > 1 else vs[0]
+                hdr = "def %s %s%s: Nat → %s → Option (%s)" % (
+                    lname_,
+                    "".join("(%s : %s) " % (c, self.cb_type()) for c in cbs),
+                    ("(" + " ".join(consts) + " : Nat) ") if consts else "",
+                    " → ".join(tys), " × ".join(tys))
+                args = " ".join(cbs + consts)
+                d = [hdr,
+                     "  | 0, %s => if %s then none else some %s" % (", ".join(vs), condtxt, tup),
+                     "  | fuel + 1, %s =>" % ", ".join(vs),
+                     "    if %s then" % condtxt]
+                d += blines
+                d.append("      %s %s fuel %s" % (lname_, args, " ".join(vs)))
+                d.append("    else some %s" % tup)
+                self.prelude.append("\n".join(d) + "\n")
+                out.append(pad + "match %s %s fuel %s with" % (lname_, args, " ".join(vs)))
+                out.append(pad + "| none => none")
+                out.append(pad + "| some %s =>" % tup)
+                out += self.stmts(rest, ind + 1)
+                return out
             if k == "CompoundAssignOperator" and s["opcode"] in ("+=", "-="):
                 cur = self.expr(s["inner"][0])
                 out.append(pad + self.assign(s["inner"][0], "%s %s %s" % (cur, s["opcode"][0], self.expr(s["inner"][1]))))
@@ -261,6 +360,40 @@ class Fn:
                 out.append(pad + self.assign(s["inner"][0], "%s %s 1" % (cur, "+" if s["opcode"] == "++" else "-")))
                 continue
             if k == "CallExpr":
+                callee = self.strip(s["inner"][0])
+                cname = callee.get("referencedDecl", {}).get("name")
+                if cname in self.cbs:
+                    # callback without result: an arbitrary effect on the link memories
+                    a0 = self.strip(s["inner"][1])
+                    if a0["kind"] == "CallExpr" and self.strip(a0["inner"][0])["referencedDecl"]["name"] in self.known:
+                        lines, rv = self.call_stmt(a0, True)
+                        out += [pad + l for l in lines]
+                        arg = rv
+                    else:
+                        arg = self.atom(self.expr(s["inner"][1]))
+                    pat = "(" + ", ".join(self.mems) + ")" if len(self.mems) > 1 else self.mems[0]
+                    out.append(pad + "let %s := %s %s %s" % (pat, lname(cname), " ".join(self.mems), arg))
+                    continue
+                if cname == "cstl_swap":
+                    a, b = s["inner"][1], s["inner"][2]
+                    if self.is_hdr_ref(a) and self.is_hdr_ref(b):
+                        ha = lname(self.strip(a)["referencedDecl"]["name"])
+                        hb = lname(self.strip(b)["referencedDecl"]["name"])
+                        for mem in self.mems:       # the embedded head nodes
+                            out.append(pad + "let swp := %s %s.h" % (mem, ha))
+                            out.append(pad + "let %s := upd %s %s.h (%s %s.h)" % (mem, mem, ha, mem, hb))
+                            out.append(pad + "let %s := upd %s %s.h swp" % (mem, mem, hb))
+                        flds = sorted(set(self.cfg.hdr_fields.values()))
+                        out.append(pad + "let swh := %s" % ha)
+                        out.append(pad + "let %s := { %s with %s }" % (ha, ha, ", ".join("%s := %s.%s" % (f, hb, f) for f in flds)))
+                        out.append(pad + "let %s := { %s with %s }" % (hb, hb, ", ".join("%s := swh.%s" % (f, f) for f in flds)))
+                        continue
+                    ea, eb = self.atom(self.expr(a)), self.atom(self.expr(b))
+                    for mem in self.mems:           # two nodes: exchange every link field
+                        out.append(pad + "let swp := %s %s" % (mem, ea))
+                        out.append(pad + "let %s := upd %s %s (%s %s)" % (mem, mem, ea, mem, eb))
+                        out.append(pad + "let %s := upd %s %s swp" % (mem, mem, eb))
+                    continue
                 lines, _ = self.call_stmt(s, False)
                 out += [pad + l for l in lines]
                 continue
@@ -293,7 +426,7 @@ class Fn:
                 el = (els["inner"] if els["kind"] == "CompoundStmt" else [els]) if els else []
                 t_ret = self.ends_in_return(tl)
                 e_ret = self.ends_in_return(el)
-                if t_ret or e_ret:
+                if t_ret or e_ret or self.contains_loop(then) or (els is not None and self.contains_loop(els)):
                     # early return: the rest of the function belongs to the non-returning branch(es)
                     out.append(pad + "if %s then" % cond)
                     out += self.stmts(tl + ([] if t_ret else rest), ind + 1)
@@ -301,12 +434,14 @@ class Fn:
                     out += self.stmts(el + ([] if e_ret else rest), ind + 1)
                     return out
                 st = self.state()
+                nloc = len(self.locals)
                 out.append(pad + "let %s := if %s then (" % (st, cond))
                 out += self.stmts(tl, ind + 2, tail=False)
                 out.append(pad + "    %s)" % st)
                 out.append(pad + "  else (")
                 out += self.stmts(el, ind + 2, tail=False)
                 out.append(pad + "    %s)" % st)
+                self.locals = self.locals[:nloc]
                 continue
             if k == "CompoundStmt":
                 out += self.stmts(s["inner"], ind, tail=False)
@@ -324,11 +459,16 @@ class Fn:
 
     def render(self):
         body = self.stmts(self.body.get("inner", []), 1)
+        cbs = "".join("(%s : %s) " % (lname(c), self.cb_type()) for c in self.cbs)
+        fuel = "(fuel : Nat) " if self.has_loop else ""
         mems = " ".join("(%s : Mem)" % m for m in self.mems)
         hdrs = " ".join("(%s : Hd)" % lname(h) for h in self.hdrs)
         vals = (" (" + " ".join(lname(v) for v in self.vals) + " : Nat)") if self.vals else ""
         rty = " × ".join(["Mem"] * len(self.mems) + ["Hd"] * len(self.hdrs) + (["Nat"] if self.ret is not None else []))
-        return "def %s %s %s%s : %s :=\n%s\n" % (self.lean_name(), mems, hdrs, vals, rty, "\n".join(body))
+        if self.has_loop:
+            rty = "Option (%s)" % rty
+        return "".join(p + "\n" for p in self.prelude) + "def %s %s%s%s %s%s : %s :=\n%s\n" % (
+            self.lean_name(), cbs, fuel, mems, hdrs, vals, rty, "\n".join(body))
 
 
 AREAS = {
@@ -339,7 +479,8 @@ AREAS = {
                 "Cstl.SList"),
         order=["__cstl_slist_insert_after", "__cstl_slist_erase_after", "cstl_slist_insert_after",
                "cstl_slist_erase_after", "cstl_slist_push_front", "cstl_slist_push_back", "cstl_slist_pop_front",
-               "cstl_slist_front", "cstl_slist_back", "cstl_slist_concat"],
+               "cstl_slist_front", "cstl_slist_back", "cstl_slist_concat", "cstl_slist_reverse", "cstl_slist_clear",
+               "cstl_slist_swap"],
         header="import Cstl.SList.Model\n",
         opens="open Cstl.SList (Mem upd Hd init)\n",
         module="SListC",
@@ -351,7 +492,8 @@ AREAS = {
                 "Cstl.DList"),
         order=["__cstl_dlist_insert", "__cstl_dlist_erase", "cstl_dlist_insert", "cstl_dlist_erase",
                "cstl_dlist_front", "cstl_dlist_back", "cstl_dlist_push_front", "cstl_dlist_push_back",
-               "cstl_dlist_pop_front", "cstl_dlist_pop_back", "cstl_dlist_concat"],
+               "cstl_dlist_pop_front", "cstl_dlist_pop_back", "cstl_dlist_concat", "cstl_dlist_reverse",
+               "cstl_dlist_clear", "cstl_dlist_swap"],
         header="import Cstl.DList.Model\n",
         opens="open Cstl.SList (Mem upd)\nopen Cstl.DList (Hd init)\n",
         module="DListC",
